@@ -28,19 +28,25 @@ def handle (tb : Tables) (c impl : T) : String :=
     --   opword   "'x' is not a valid executable operation type"                (D64)
     --   fragcond "missing fragment condition" (the token where `on` is expected) (D70)
     --   vardef   a variable coercion error, located at the variable's name       (D71)
+    --   argname  an undeclared or repeated argument, located at the argument's name (D82)
     (match src.asChars, off.asNat, len.asNat with
      | some src, some off, some len =>
        let (flag, asCoded) : String × Bool := match kind with
          | "opword" => ("D64", tb.opErrPosAfterLookahead)
          | "fragcond" => ("D70", tb.fragCondPosAfterToken)
+         | "argname" => ("D82", tb.argPosAfterToken)
          | _ => ("D71", tb.varDefPosAfterToken)
        -- at end of input there is no look-ahead byte to consume: the as-coded form then samples after the token only
        let atEof := decide (src.length ≤ off + len)
        let locOf (c : Bool) : Int × Int :=
          if c then
            let p := after (src.take (if atEof then off + len else off + len + 1))
-           (p.line, (p.col : Int) - (if kind == "fragcond" then 2 else len))
-         else fieldLoc { sampleAfterLookahead := false } src off len
+           (p.line, (p.col : Int) - (if kind == "fragcond" then 2 else if kind == "argname" then len + 1 else len))
+         else
+           -- (an argument is located one column before where a field, an operation word or a variable is: the
+           -- scanner's column of the name's first character minus one, as it always was on one line)
+           let fl := fieldLoc { sampleAfterLookahead := false } src off len
+           if kind == "argname" then (fl.1, fl.2 - 1) else fl
        let cur := encLoc (locOf asCoded)
        let alt := encLoc (locOf (!asCoded))
        let specOk : Bool := match impl with
@@ -57,6 +63,7 @@ def handle (tb : Tables) (c impl : T) : String :=
          (if l == t then "ok" else if cfgCur.sampleAfterLookahead then "dev D21"
           else if tb.opErrPosAfterLookahead then "dev D64"
           else if tb.fragCondPosAfterToken then "dev D70" else if tb.varDefPosAfterToken then "dev D71"
+          else if tb.argPosAfterToken then "dev D82"
           else "mismatch spec-bad (env …)")
        else "mismatch spec-bad (env true true true true true true true)"
      | _ => "bad-op")
@@ -72,7 +79,7 @@ def handle (tb : Tables) (c impl : T) : String :=
   | _ => "bad-op"
 
 def flags (tb : Tables) : List (String × Bool) :=
-  [("D21", (cfgCurOf tb).sampleAfterLookahead), ("D64", tb.opErrPosAfterLookahead), ("D70", tb.fragCondPosAfterToken),
+  [("D21", (cfgCurOf tb).sampleAfterLookahead), ("D64", tb.opErrPosAfterLookahead), ("D70", tb.fragCondPosAfterToken), ("D82", tb.argPosAfterToken),
    ("D71", tb.varDefPosAfterToken)]
 
 end Ggql.Driver.C07
